@@ -2,7 +2,9 @@
 """Confirm candidate seeded changes in scratch worktrees (outside /repo and
 /verif; each removed as soon as it is done).
 
-usage: python3 tools/confirm.py <round> <srcdir> [<Cxx/mK> ...]
+usage: python3 tools/confirm.py [--benign] <round> <srcdir> [<Cxx/mK> ...]
+  --benign: a behaviour-preserving refactoring; the demonstration must pass
+            on the clean tree AND with the patch
   srcdir has <Cxx>/<mK>/{patch.diff,demo.py,notes.md}
 
 For every candidate: the demonstration must exit 0 on the clean tree and
@@ -19,6 +21,7 @@ import xml.etree.ElementTree as ET
 from concurrent.futures import ThreadPoolExecutor
 
 PY = '/venv/bin/python'
+BENIGN = False
 BASE = json.load(open('/root/.vp/BASELINE.json'))
 STABLE = set(ast.literal_eval(BASE['stable_pass']) if isinstance(
     BASE['stable_pass'], str) else BASE['stable_pass'])
@@ -35,7 +38,7 @@ def sh(cmd, cwd=None, timeout=1500):
 def one(args):
     rnd, src, rel = args
     d = os.path.join(src, rel)
-    pid = rel.split('/')[0]
+    pid = rel.split('/')[0][:3]
     wt = '/tmp/cf-%s-%s' % (rnd, rel.replace('/', '-'))
     meta = dict(property=pid, title=PROPS[pid]['title'], round=rnd)
     try:
@@ -97,7 +100,8 @@ def one(args):
                     '/venv/bin/python -m pytest -q -p no:cacheprovider '
                     '--timeout=900 --continue-on-collection-errors '
                     '--junitxml=...  (all 346 stable tests pass)'])))
-        ok = rc0 == 0 and rc1 != 0 and not missing and passed
+        ok = rc0 == 0 and (rc1 == 0 if BENIGN else rc1 != 0) \
+            and not missing and passed
         meta['keep'] = bool(ok)
         if rc0 != 0:
             meta['clean_output'] = out0[-400:]
@@ -110,11 +114,14 @@ def one(args):
 
 
 def main():
-    rnd, src = sys.argv[1], sys.argv[2]
-    rels = sys.argv[3:]
+    global BENIGN
+    args = [a for a in sys.argv[1:] if a != '--benign']
+    BENIGN = '--benign' in sys.argv
+    rnd, src = args[0], args[1]
+    rels = args[2:]
     if not rels:
         for p in sorted(os.listdir(src)):
-            if re.fullmatch(r'C\d\d', p):
+            if re.fullmatch(r'C\d\d(_C\d\d)?', p):
                 for m in sorted(os.listdir(os.path.join(src, p))):
                     if os.path.exists(os.path.join(src, p, m, 'patch.diff')):
                         rels.append('%s/%s' % (p, m))
